@@ -61,7 +61,9 @@ func exploreMachineSpace(r *ev.Run, sp spaceDesc, v machineVisitor) (*spaceStats
 		}
 		forEachEnv(p, func(env *gen.Env) {
 			st.Evals.Add(1)
-			res := runMachine(prog, env.Vars, vmStore{newFakeStore(env)})
+			fs := newFakeStore(env)
+			res := runMachine(prog, env.Vars, vmStore{fs})
+			res.Queried = fs.queried
 			switch {
 			case res.Panic != nil:
 				st.RunsPanick.Add(1)
